@@ -232,6 +232,32 @@ fn scripted(v: Variant) -> Vec<Hist> {
             }
         }
     }
+    // lowered to 0 % the entry is still an entry: the way back up is +2 points per day
+    out.push(Hist {
+        setup: setup_with(v, Some(5 * PCT)),
+        steps: vec![
+            st(t0 + DAY_NS, "creator", upd_roy(0)),
+            st(t0 + 2 * DAY_NS, "creator", upd_roy(5 * PCT)),
+            st(t0 + 2 * DAY_NS, "creator", upd_roy(2 * PCT + 1)),
+            st(t0 + 2 * DAY_NS, "creator", upd_roy(2 * PCT)),
+            st(t0 + 3 * DAY_NS, "creator", upd_roy(ONE)),
+        ],
+    });
+    // a 0 % (and a 1-unit) entry across a migration to the sg721-updatable code, then the
+    // first raise of the collection's life
+    for init in [Some(0u128), Some(1), None] {
+        for cw2 in [None, Some((if v == Variant::Base { NAME_BASE_LEGACY } else { NAME_UPD_LEGACY }.to_string(), "3.2.1".to_string()))] {
+            if cw2.is_some() && !matches!(v, Variant::Base | Variant::Updatable) {
+                continue;
+            }
+            for new in [init.unwrap_or(0) + 2 * PCT, init.unwrap_or(0) + 2 * PCT + 1, 5 * PCT, ONE] {
+                out.push(Hist {
+                    setup: Setup { cw2: cw2.clone(), ..setup_with(v, init) },
+                    steps: vec![st(t0 + 10, "creator", Op::Migrate), st(t0 + DAY_NS, "creator", upd_roy(new)), st(t0 + 2 * DAY_NS, "creator", upd_roy(4 * PCT))],
+                });
+            }
+        }
+    }
     // cadence measured from instantiation and from the previous accepted change
     for d0 in [DAY_NS - 1, DAY_NS, DAY_NS + 1] {
         for d1 in [DAY_NS - 1, DAY_NS, DAY_NS + 1] {
@@ -684,7 +710,7 @@ pub fn run(a: &Args) {
         }
     }
     rep.distinct_nontrivial = distinct.len() as u64;
-    rep.rule = "evaluations = royalty_payout calls + instantiations + executed history steps. Payout: shares {none, 0, 1, 1%, 2%, 5%, 10%, 50%, 99%, 100%, 200%, u128::MAX} +-1 atomic x payments (small, 10^k, 10^18, u128::MAX, +-1) x fees on the `fees + royalty = payment` boundary +-1, with/without finder's fee, plus random u128. Histories: per variant (base, updatable, updatable-migrated, metadata-onchain, nt) instantiate shares around 100%, clocks at 24h-1ns/24h/24h+1ns from creation and from the previous accepted change, raises of 2% +-1 atomic from 12 bases, cap 10% +-1 atomic, first royalty on a royalty-less collection, climbs, non-creator senders, frozen collection, u64 clock overflow, admin migrations to the sg721-updatable code between royalty updates at 1 ns / 1 h / 24 h -1 / +0 / +1 over the same cw2 name x version grid as C09, then random royalty histories (with migrations). Non-trivial = payout that pays or refuses; history step (distinct by variant, call, sender, outcome and prior observation) that is not a message-does-not-exist rejection.".into();
+    rep.rule = "evaluations = royalty_payout calls + instantiations + executed history steps. Payout: shares {none, 0, 1, 1%, 2%, 5%, 10%, 50%, 99%, 100%, 200%, u128::MAX} +-1 atomic x payments (small, 10^k, 10^18, u128::MAX, +-1) x fees on the `fees + royalty = payment` boundary +-1, with/without finder's fee, plus random u128. Histories: per variant (base, updatable, updatable-migrated, metadata-onchain, nt) initial entry {none, 0%, 1 unit, 2%, 10%, 100%} x first update at 24h-1ns/24h/24h+1ns x {+1 unit, +2pts, +2pts+1 unit, 5%, 100%} (monitors judge raises against the harness's ledger of the entry as the creator set it, never a read-back value), 0%/1-unit entries across a migration, lowering to 0% and back, instantiate shares around 100%, clocks at 24h-1ns/24h/24h+1ns from creation and from the previous accepted change, raises of 2% +-1 atomic from 12 bases, cap 10% +-1 atomic, first royalty on a royalty-less collection, climbs, non-creator senders, frozen collection, u64 clock overflow, admin migrations to the sg721-updatable code between royalty updates at 1 ns / 1 h / 24 h -1 / +0 / +1 over the same cw2 name x version grid as C09, then random royalty histories (with migrations). Non-trivial = payout that pays or refuses; history step (distinct by variant, call, sender, outcome and prior observation) that is not a message-does-not-exist rejection.".into();
     out.write_cases("C10", "From LP Require Import Collection C10Corr.", "c10_case", "c10_check", &coq_cases, 6, &mut rep);
     out.finish(&rep);
     println!("C10 harness: {} evaluations in {} cases, {} monitor violations", rep.evaluations, coq_cases.len(), nviol);
